@@ -59,6 +59,11 @@ type Interface struct {
 
 	// List of methods!
 	Methods Methods
+
+	// ambiguous holds the names of embedded methods that were dropped because they are
+	// reachable through more than one embedded field (at any depth below this type).
+	// Go does not promote such methods, so a parent type must not pick them up either.
+	ambiguous set.Set[string]
 }
 
 // utility helper for various things.
@@ -158,6 +163,7 @@ func (pkgs allpkgs) namedTypeToInterface(
 		IsInterface: false,
 		TypeRef:     ih.ExtractTypeRef(t),
 		Methods:     make(Methods, 0, t.NumMethods()),
+		ambiguous:   make(set.Set[string]),
 	}
 	if hasPkg {
 		result.Comments = CommentsFromObj(pkg, t.Obj().Name())
@@ -218,10 +224,21 @@ func (pkgs allpkgs) namedTypeToInterface(
 			}
 			if _, ok := methodsToAdd[m.Name]; ok {
 				ignoreEmbeddedMethodsNamed.Add(m.Name)
+				result.ambiguous.Add(m.Name)
 				delete(methodsToAdd, m.Name)
 			} else {
 				methodsToAdd[m.Name] = m
 			}
+		}
+		// A name that is ambiguous inside the embedded type is not promoted by Go, and it
+		// collides with the same name coming from any other embedded field.
+		for name := range embeddedIface.ambiguous {
+			if ignoreEmbeddedMethodsNamed.Has(name) {
+				continue
+			}
+			ignoreEmbeddedMethodsNamed.Add(name)
+			result.ambiguous.Add(name)
+			delete(methodsToAdd, name)
 		}
 	}
 
